@@ -232,7 +232,7 @@ package mast
 //@ requires nn (and (> node 0) (> mast 0) (not (= (Mast.keyOrder H mast) 0)))
 //@ requires shape [C01] (Shape H node)
 //@ requires sorted2 [T3] (=> (>= (nkeys H node) 2) (< (ord (KeyAt H node 0) (KeyAt H node 1)) 0))
-//@ ensures same [C02] (=> (not (mastNode.shared H0 node)) (and (= result node) (= H H0)))
+//@ ensures same [C02] (=> (not (mastNode.shared H0 node)) (= result node))
 //@ ensures copy [C02] (=> (mastNode.shared H0 node) (and (> result W0) (<= result W) (FreshArrays H result W0) (SameSeqs H result H0 node) (not (mastNode.shared H result)) (= (mastNode.expected H result) node) (= (mastNode.source H result) 0) (= (mastNode.dirty H result) (mastNode.dirty H0 node))))
 //@ ensures caps (and (= (sl.cap (Node.Key H result)) (sl.cap (Node.Key H0 node))) (= (sl.cap (Node.Value H result)) (sl.cap (Node.Value H0 node))) (= (sl.cap (Node.Link H result)) (sl.cap (Node.Link H0 node))))
 //@ ensures unshared [C02] (and (> result 0) (not (mastNode.shared H result)))
